@@ -90,7 +90,7 @@ def update_model(prog, fi):
         return out
     for t in src.elts:
         if isinstance(t, ast.Tuple) and len(t.elts) == 2 and isinstance(t.elts[0], ast.Constant):
-            out["pairs"].append((t.elts[0].value, t.elts[1]))
+            out["pairs"].append((t.elts[0].value, resolve(t.elts[1], fi) if isinstance(t.elts[1], ast.Name) and t.elts[1].id not in fi.params else t.elts[1]))
         else:
             out["why"] = f"candidate `{norm(t)}` is not a (column, value) pair"
             return out
@@ -205,6 +205,8 @@ def field_tables(prog, rep):
         t = norm(cr_v) if cr_v is not None else ""
         if ".replace(tzinfo" in t or "replace(tzinfo" in t:
             rep.violation("FIELDS", "BucketModel.json", "created instant", f"`{t}` re-labels the stored creation time with another zone instead of converting it: a bucket created with a non-UTC instant is listed with a different creation instant", js.loc(), expected="iso8601.parse_date(self.created).astimezone(timezone.utc).isoformat()", found=t)
+        elif ("fromisoformat(self.created)" in t or "strptime(self.created" in t) and ".astimezone(" in t:
+            rep.violation("FIELDS", "BucketModel.json", "created instant", f"`{t}`: datetime.fromisoformat / strptime give a NAIVE datetime for a text without an offset, and astimezone() reads a naive datetime in the machine's local zone, whereas iso8601.parse_date reads it as UTC: a creation time stored without an offset (legacy rows, clients that send naive text) comes back shifted by the local UTC offset", js.loc(), expected="iso8601.parse_date(self.created).astimezone(timezone.utc).isoformat()", found=t)
         elif t in ("iso8601.parse_date(self.created).astimezone(timezone.utc).isoformat()", "self.created", "iso8601.parse_date(self.created).isoformat()"):
             rep.ok("FIELDS", "BucketModel.json", "created instant", t, js.loc())
         else:
@@ -307,7 +309,8 @@ def delete_coverage(prog, rep):
             ok, w = g.must_pass(g.entry, {g.node_of(dels[t].call)})
             rep.check(ok, "DELETE-ALL", fi.short, f"DELETE FROM {t}", "on every normal path", f"a path deletes the bucket without deleting from `{t}`", dels[t].loc())
     if "events" in dels and "buckets" in dels:
-        rep.check(dels["events"].call.lineno < dels["buckets"].call.lineno, "DELETE-ALL", fi.short, "order", "events first (their scope sub-select needs the bucket row)", "the bucket row is deleted before its events: the events' scoping sub-select then matches nothing", fi.loc())
+        n_ev, n_bk = g.node_of(dels["events"].call), g.node_of(dels["buckets"].call)
+        rep.check(n_bk in g.reach_avoiding([n_ev]) and n_ev not in g.reach_avoiding([n_bk]), "DELETE-ALL", fi.short, "order", "events first (their scope sub-select needs the bucket row)", "the bucket row is deleted before its events: the events' scoping sub-select then matches nothing", fi.loc())
     # peewee
     models = {c.name: c for c in prog.classes.values() if c.mod.name == "aw_datastore.storages.peewee"}
     fk_models = {n for n, c in models.items() if any("ForeignKeyField(BucketModel" in norm(v) for v in c.attrs.values())}
@@ -433,6 +436,36 @@ def container_eviction(prog, rep):
         r = gg.reach_filtered(gg.entry, lambda u, v, lab: membership(lab, "bucket_id", "self.buckets()") is not True)
         for st in stores:
             rep.check(gg.node_of(st) not in r, "CACHES-ALL", gi.short, "handle cached only for existing buckets", "the store into bucket_instances is dominated by `bucket_id in self.buckets()`", "a Bucket handle is cached before (or without) checking that the bucket exists: after a failed lookup the handle stays cached, and later lookups of the missing bucket succeed", gi.loc(st))
+    # ... and what __getitem__ stored for the requested id is still there when it reads it back
+    reads = [x for x in walk_own(gi.node) if isinstance(x, ast.Subscript) and isinstance(x.ctx, ast.Load) and norm(x.value) == "self.bucket_instances"]
+    for st in stores:
+        key = next(norm(t.slice) for t in st.targets if isinstance(t, ast.Subscript))
+        for rm in walk_own(gi.node):
+            gone = None
+            if isinstance(rm, ast.Call) and isinstance(rm.func, ast.Attribute) and norm(rm.func.value) == "self.bucket_instances":
+                if rm.func.attr == "popitem" and not rm.args and not rm.keywords:
+                    gone = "popitem() removes the entry added last, which is the one just stored"
+                elif rm.func.attr == "clear":
+                    gone = "clear() empties the cache"
+                elif rm.func.attr == "pop" and rm.args and norm(rm.args[0]) == key:
+                    gone = "pop() removes the requested id"
+            if isinstance(rm, ast.Delete) and any(isinstance(t, ast.Subscript) and norm(t.value) == "self.bucket_instances" and norm(t.slice) == key for t in rm.targets):
+                gone = "del removes the requested id"
+            if gone is None:
+                continue
+            stn = rm
+            while not isinstance(stn, ast.stmt):
+                stn = parent(stn)
+            on_path = gg.node_of(stn) in gg.reach_avoiding([gg.node_of(st)])
+
+            def _stmt(x):
+                while not isinstance(x, ast.stmt):
+                    x = parent(x)
+                return x
+
+            after_rm = gg.reach_avoiding([gg.node_of(stn)], avoid=frozenset([gg.node_of(st)]))
+            reads_after = [r_ for r_ in reads if gg.node_of(_stmt(r_)) in after_rm]
+            rep.check(not (on_path and reads_after), "CACHES-ALL", gi.short, "cached handle still present when read back", "nothing between the store and the read removes the entry", f"`{norm(rm)[:60]}` runs after `{norm(st)[:60]}`: {gone}, and `{norm(reads_after[0]) if reads_after else ''}` then raises KeyError for a bucket that exists", gi.loc(rm))
 
 
 def not_found(prog, rep):
